@@ -23,6 +23,11 @@ from stepup.core.nglob import NamedGlob
 from stepup.core.static_tree import StaticTree
 from stepup.core.step import Step
 
+def i_case_parity(run) -> bool:
+    """A coin that costs no draw of the generator's PRNG: the parity of the number of requests so far."""
+    return len(getattr(run, "lines", ())) % 2 == 0
+
+
 PATHS = ["a.txt", "b.txt", "d/c.txt", "d/e.txt", "d/sub/g.txt", "d2/f.txt", "out/x", "out/y", "o.bin", "d/o2",
          "a_b/f.txt", "axb/f.txt"]
 DIRS = ["d", "d/sub", "d2", "out", "d/", "a_b", "axb"]
@@ -153,6 +158,9 @@ class KernelRun:
         r = self.r
         targets = r.sample(PATHS, r.choice([0, 0, 0, 1, 2]))
         tdirs = [d.rstrip("/") + "/" for d in r.sample(DIRS[:4], r.choice([0, 0, 0, 1]))]
+        # the project root as the directory target, now and then (no extra draw: the stream of every
+        # existing case stays what it was)
+        tdirs = ["./" if d == "d2/" and i_case_parity(self) else d for d in tdirs]
         avail = {name: r.choice([1, 2, 3]) for name in RESOURCES if r.random() < 0.7}
         self.env = {name: r.choice(["x", "y"]) for name in ENVS if r.random() < 0.6}
         cap = r.choice([100, 1, 2])
@@ -1253,6 +1261,9 @@ class KernelRun:
         if force_targets is not None or r.random() < 0.35:
             targets = r.sample(PATHS, r.choice([0, 0, 1, 2]))
             tdirs = [d.rstrip("/") + "/" for d in r.sample(DIRS[:4], r.choice([0, 0, 0, 1]))]
+            # the project root as the directory target, now and then (no extra draw: the stream of every
+            # existing case stays what it was)
+            tdirs = ["./" if d == "d2/" and i_case_parity(self) else d for d in tdirs]
             if force_targets is not None:
                 targets, tdirs = list(force_targets[0]), list(force_targets[1])
             self.targets, self.tdirs = targets, tdirs
